@@ -243,7 +243,17 @@ def _do(c, op, ctx):
     if name == 'reset':
         # a settings update (bulk loads switch culling off this way); no part of the data, callable anywhere
         target = c.cache if hasattr(c, 'cache') and not hasattr(c, 'close') else c
-        return fp(target.reset(op['key'], op['value']))
+        value = op['value']
+        if value == 'volume':
+            # "as full as it is now": the limit is put at the present volume (of the emptiest shard), so that the next write
+            # finds the cache at its size limit - the normal state of a long-lived cache
+            inner = getattr(target, '_cache', target)       # DjangoCache wraps a FanoutCache
+            shards = getattr(inner, '_shards', None)
+            value = min(s.volume() for s in shards) if shards else inner.volume()
+            target = inner
+            target.reset(op['key'], value)
+            return fp(None)
+        return fp(target.reset(op['key'], value))
     if name == 'open_settings':
         # another handle on the same directory, opened without arguments: what it finds are the stored settings
         from . import seams
